@@ -15,7 +15,7 @@ python3 tools/genmain.py
 set +e
 build/bin/factgen -repo /repo -out lean/OntVerif/OntVerif/Gen
 IDS=$(cat props/enabled.txt)
-(cd lean/OntVerif && for i in $IDS; do echo OntVerif.Props.$i drv-$i; done | xargs lake build) || echo "setup: some Lean targets failed (the checks concerned will report it)"
+(cd lean/OntVerif && lake build OntVerif.Util.Audit; for i in $IDS; do echo OntVerif.Props.$i drv-$i; done | xargs lake build) || echo "setup: some Lean targets failed (the checks concerned will report it)"
 # warm the Go build cache: every enabled harness binary once (checks rebuild them from /repo's working tree anyway)
 cd harness
 for i in $IDS; do echo $i | tr 'C' 'c'; done | xargs -P 6 -I{} sh -c 'go build -modfile=../build/gomod/repo/go.mod -tags verif -o ../build/bin/hx-{} ./cmd/{} || echo "setup: harness {} failed to build"'
